@@ -49,9 +49,16 @@ Definition E_noacct := 7%nat.
 Definition P_div0 := 1%nat.
 Definition P_negcoin := 2%nat.
 
-(* types/commitments.go VestedSoFar; big.Int Quo truncates toward zero and panics on 0 *)
-Definition vested_so_far (v : ventry) (h : Z) : res Z :=
+(* types/commitments.go VestedSoFar; big.Int Quo truncates toward zero. A schedule of zero blocks is fully vested
+   at once (fix: 3c63217; before it the division by NumBlocks = 0 panicked: [vested_so_far_prefix]) *)
+Definition vested_so_far_prefix (v : ventry) (h : Z) : res Z :=
   if v_num v =? 0 then Panic P_div0 else
+  let e := h - v_start v in
+  let e := if v_num v <? e then v_num v else e in
+  Ok (Z.quot (v_total v * e) (v_num v)).
+
+Definition vested_so_far (v : ventry) (h : Z) : res Z :=
+  if v_num v <=? 0 then Ok (v_total v) else
   let e := h - v_start v in
   let e := if v_num v <? e then v_num v else e in
   Ok (Z.quot (v_total v * e) (v_num v)).
